@@ -44,6 +44,7 @@ type sub struct {
 	closedAt int64 // stamp at which the reader saw the channel closed
 	done     chan struct{}
 	stop     chan struct{}
+	reactive bool // on every value of an ordinary key it receives, it calls Batch itself (from its reader goroutine)
 }
 
 type batchRec struct {
@@ -66,6 +67,7 @@ type world struct {
 	batches             []*batchRec
 	steps               []string
 	nextV               int
+	reactMu             sync.Mutex
 	clean               bool // no stall / placement so far: delivery instants are exact
 	closeCall, closeRet int64
 	closeT              time.Time
@@ -127,6 +129,10 @@ func (w *world) subscribe(kind string, async bool) *sub {
 	w.subs = append(w.subs, s)
 	s.subCall = w.stamp()
 	w.mu.Unlock()
+	if kind == "reactive" {
+		s.kind, s.reactive = "prompt", true
+		rec.Count("subscribe.reactive_subscriber", 1)
+	}
 	if kind == "precancelled" {
 		// a subscriber that arrives with a context that has already ended: it reads promptly, is entitled
 		// to nothing, and must not get in anybody's way
@@ -172,6 +178,25 @@ func (w *world) subscribe(kind string, async bool) *sub {
 			}
 			s.got = append(s.got, recv{v, time.Now(), st})
 			s.mu.Unlock()
+			if s.reactive {
+				// a consumer that feeds the batcher from its own event handler
+				w.mu.Lock()
+				var key string
+				for _, b := range w.batches {
+					if b.v == v {
+						key = b.key
+					}
+				}
+				closing := w.closeCall > 0
+				w.mu.Unlock()
+				if key != "" && key != "react" && !closing {
+					rec.Count("reactive.batch_from_event_handler", 1)
+					// one at a time, so that "the most recent Batch call" stays well defined for the judge
+					w.reactMu.Lock()
+					w.batch("react")
+					w.reactMu.Unlock()
+				}
+			}
 		}
 	}()
 	return s
@@ -483,7 +508,7 @@ func TestCheck(t *testing.T) {
 	rec = mon.Open("C10")
 	defer rec.Close()
 	rec.Note("rule", "a case is one history against the real Batcher in a synctest bubble: (lockstep) seeded Batch / sleep / Subscribe / cancel / Close sequences on a 1 ms grid with prompt subscribers, judged against the debounce reference including exact delivery instants; (stall) a never-reading subscriber with 52-70 events outstanding (past the 50-slot buffer) while further Batch / Subscribe / Close calls are made, resolved by cancelling or unleashing it; (directed) the delivery loop parked at fanout.send or a forwarder at fwd.exit while cancel / Close / Subscribe / Batch are issued. Non-trivial = at least one value was delivered to a subscriber; distinct = distinct step list.")
-	rec.Note("require", []string{"park.fanout.send", "subscribe.with_ended_context", "park.fwd.exit", "park.queue.loop.fired", "park.queue.exec.popped", "judged", "stall.fanout_blocked", "stall.resolved_by_cancel", "stall.resolved_by_unleash", "delivered", "closed_channels_seen", "close.overlapping_calls_checked", "subclose.rounds"})
+	rec.Note("require", []string{"park.fanout.send", "subscribe.with_ended_context", "reactive.batch_from_event_handler", "park.fwd.exit", "park.queue.loop.fired", "park.queue.exec.popped", "judged", "stall.fanout_blocked", "stall.resolved_by_cancel", "stall.resolved_by_unleash", "delivered", "closed_channels_seen", "close.overlapping_calls_checked", "subclose.rounds"})
 	ps := plans()
 	rec.Planned(len(ps))
 	for idx, pl := range ps {
@@ -655,6 +680,9 @@ func lockstep(w *world, rng *mon.RNG) string {
 			if rng.Chance(1, 4) {
 				w.step("subscribe (context already ended)")
 				w.subscribe("precancelled", false)
+			} else if rng.Chance(1, 3) {
+				w.step("subscribe (reactive: batches from its event handler)")
+				w.subscribe("reactive", false)
 			} else {
 				w.step("subscribe")
 				w.subscribe("prompt", false)
